@@ -32,7 +32,10 @@ def c11(ci, fi, n, user):
     free = SX.fresh(n)
     body = FRAGS[fi] + free
     body_ok(body)
-    if user:
+    if isinstance(user, str):
+        name = user                 # a concrete user-chosen name (e.g. one that is also a math environment name)
+        kw = {'skip_envs': (name,)}
+    elif user:
         name = SX.fresh(user)
         for ch in name:
             SX.assume(SX.ch_in(ch, LETTERS))
